@@ -35,6 +35,7 @@ func (s *State) evalAssignment(right object.Object, node *ast.InfixExpression) o
 		if !ok {
 			return s.Errorf("assignment to non index [] expression %T %v", node.Left, ast.DebugString(node.Left))
 		}
+		right = object.Value(right) // the value it has now: evaluating the index can change the variable (a[++i] = i).
 		index := s.Eval(idxE.Index)
 		if index.Type() == object.ERROR {
 			return index
